@@ -93,6 +93,10 @@ def r2(repo, run):
     probs = set()
     for p, fin in rets:
         el = fin.value.elems
+        if el is not None and any(isinstance(getattr(x, 'ast', None), ast.Starred) for x in el):
+            raise AnalysisError('__reduce__: the returned tuple is assembled with a starred part (%s): not recognised' % fin.value.text[:80])
+        if el is None and not isinstance(fin.value.ast, (ast.Tuple, ast.Constant)):
+            raise AnalysisError('__reduce__: what is returned (%s) is not a tuple display: not recognised' % fin.value.text[:80])
         if el is None or len(el) != 5:
             run.violation('C19.R2', tr.where(fi, fin), fin.value.text[:120], '__reduce__ does not return the 5-tuple (callable, args, state, list items, dict items)')
             return
